@@ -194,9 +194,20 @@ var Shapes = []Shape{
 	{"question-run", func(n int) string { return "a" + rep("?", n) }},
 	{"eq-run", func(n int) string { return "a" + rep("=", n) + "b" }},
 	{"multibyte-identifier", func(n int) string { return rep("中", n) }},
+	{"braced-escape-digits", func(n int) string { return "'\\u{" + rep("F", n) + "}'" }},
+	{"braced-escape-open", func(n int) string { return "'\\u{" + rep("1", n) }},
+	{"hex-escape-digits", func(n int) string { return "'\\x" + rep("F", n) + "'" }},
+	{"u-escape-digits", func(n int) string { return "'\\u" + rep("0", n) + "41'" }},
+	{"exponent-digits", func(n int) string { return "1e" + rep("9", n) }},
+	{"negative-exponent-digits", func(n int) string { return "1e-" + rep("9", n) }},
+	{"leading-zeros", func(n int) string { return rep("0", n) + "1" }},
+	{"nested-args-with-element", func(n int) string { return rep("f(", n) + "1" + rep(")", n) }},
+	{"nested-brackets-with-element", func(n int) string { return rep("[", n) + "1" + rep("]", n) }},
+	{"open-calls", func(n int) string { return rep("f(", n) }},
+	{"open-brackets-with-element", func(n int) string { return rep("[", n) + "1" }},
 }
 
-var ShapeSizes = []int{0, 1, 2, 3, 255, 256, 4095, 4096, 65535, 65536}
+var ShapeSizes = []int{0, 1, 2, 3, 15, 16, 17, 31, 32, 33, 63, 64, 65, 127, 128, 129, 255, 256, 257, 511, 512, 513, 1023, 1024, 1025, 4095, 4096, 65535, 65536}
 
 // ShapeBytes builds shape s at size n, truncated to 64 KiB.
 func ShapeBytes(s Shape, n int) []byte {
